@@ -133,7 +133,11 @@ impl Op {
     pub fn is_primitive(&self) -> bool {
         matches!(
             self,
-            Op::CreateDir(_) | Op::CreateFile(..) | Op::Append(..) | Op::RemoveFile(_) | Op::RemoveDir(_)
+            Op::CreateDir(_)
+                | Op::CreateFile(..)
+                | Op::Append(..)
+                | Op::RemoveFile(_)
+                | Op::RemoveDir(_)
         )
     }
     pub fn path(&self) -> &str {
@@ -164,7 +168,9 @@ impl Op {
     }
     pub fn dest(&self) -> Option<&str> {
         match self {
-            Op::CopyFile(_, q) | Op::MoveFile(_, q) | Op::CopyDir(_, q) | Op::MoveDir(_, q) => Some(q),
+            Op::CopyFile(_, q) | Op::MoveFile(_, q) | Op::CopyDir(_, q) | Op::MoveDir(_, q) => {
+                Some(q)
+            }
             _ => None,
         }
     }
@@ -307,7 +313,7 @@ fn apply_inner<P: PathApi>(root: &P, op: &Op) -> R<Val> {
                 .collect(),
         ),
         Op::SetTime(_, k) => {
-            let t = std::time::SystemTime::UNIX_EPOCH + std::time::Duration::from_secs(1_234_567);
+            let t = crate::snapshot::set_time_instant();
             let f = match k {
                 0 => TimeField::Created,
                 1 => TimeField::Modified,
@@ -315,7 +321,9 @@ fn apply_inner<P: PathApi>(root: &P, op: &Op) -> R<Val> {
             };
             p.set_time(f, t).map(|_| Val::Unit)?
         }
-        Op::OpenWrite(..) | Op::FlushWrite | Op::CloseWrite => panic!("session steps are applied by the tree space"),
+        Op::OpenWrite(..) | Op::FlushWrite | Op::CloseWrite => {
+            panic!("session steps are applied by the tree space")
+        }
     })
 }
 
@@ -345,7 +353,11 @@ impl Universe {
         // prefix closure check
         for p in &v {
             let par = parent_of(p);
-            assert!(par.is_empty() || v.contains(&par), "universe not prefix closed: {}", p);
+            assert!(
+                par.is_empty() || v.contains(&par),
+                "universe not prefix closed: {}",
+                p
+            );
         }
         Universe {
             name: name.to_string(),
